@@ -20,6 +20,7 @@ import CtyModel.Lemmas.d14Str
 import CtyModel.Lemmas.d14FormatList
 import CtyModel.Lemmas.d14Date
 import CtyModel.Lemmas.d14Regex
+import CtyModel.Lemmas.d14Json
 import CtyModel.Props.C02
 namespace CtyModel
 namespace C14
@@ -717,6 +718,46 @@ theorem format_never_panics (L : Lib) (f : String) (args : List Value) :
     | panic w => rw [hx] at h; simp [Res.isPanic] at h
     | unmodelled => rfl
 
+/-! ## jsonencode / jsondecode (on top of C15) -/
+
+/-- `jsonencode` on a wholly known value IS C15's `Marshal(val, val.Type())` (null → `null`), and
+`jsondecode` IS C15's implied type + `Unmarshal` with it (`simpleUnmarshal`): every C15 theorem
+about those functions is a theorem about the two stdlib functions. -/
+theorem json_functions_are_the_codec (env : JsonVal.JEnv) (v : Value) (d : Json) :
+    (v.isNull = false → jsonEncodeTree env v = JsonVal.marshal env v v.ty) ∧
+    (v.isNull = true → jsonEncodeTree env v = .ok .null) ∧
+    jsonDecodeTree env d = JsonVal.simpleUnmarshal env d := by
+  refine ⟨fun h => by simp [jsonEncodeTree, h], fun h => by simp [jsonEncodeTree, h], rfl⟩
+
+/-- **Encoding inverts decoding**: for every document with distinct ascending key normal forms
+and representable numbers, `jsondecode` returns a value of the document's structural type and
+`jsonencode` of it gives the document back (up to key / string normal form and number spelling). -/
+theorem jsonencode_inverts_jsondecode (env : JsonVal.JEnv) (d : Json) (h : JsonVal.docOK env d = true) :
+    ∃ v, jsonDecodeTree env d = .ok v ∧ v.ty = JsonVal.structTy env.norm d ∧
+      (v.isNull = false → ∃ d', jsonEncodeTree env v = .ok d' ∧ JsonVal.jsonNormEq env.norm d' d = true) :=
+  StdNum.jsonencode_inverts_jsondecode env d h
+
+/-- THE FULL STATEMENT "decoding is the inverse of encoding" through the two stdlib functions:
+`jsondecode(jsonencode(v))` has `v`'s type.  FALSE — and documented to be ("applying JSONDecode to
+the result of JSONEncode may not produce an identically-typed result", json.go): `jsondecode`
+works with the IMPLIED type, so a list comes back as a tuple and a map as an object.  Not a
+finding. -/
+def jsondecode_inverts_jsonencode : Prop :=
+  ∀ (env : JsonVal.JEnv) (v : Value), JsonVal.rtHyps env v v.ty = true → JsonVal.setFree v.ty = true →
+    jsonRoundTripTyped env v = true
+
+theorem jsondecode_inverts_jsonencode_counterexample : ¬ jsondecode_inverts_jsonencode := fun h =>
+  absurd (h C15.env0 ⟨.list .string, .seq [.s "a"]⟩ (by decide +kernel) (by decide)) (by decide +kernel)
+
+/-- The strongest version that holds: decoding WITH THE VALUE'S OWN TYPE (`json.Unmarshal(buf,
+v.Type())`, what a caller who knows the type does) inverts `jsonencode` for every set-free wholly
+known value, nulls and empty collections at any depth included (C15.mirror). -/
+theorem jsondecode_inverts_jsonencode_partial (env : JsonVal.JEnv) (v : Value)
+    (h : JsonVal.rtHyps env v v.ty = true) (hs : JsonVal.setFree v.ty = true) (hn : v.isNull = false) :
+    ∃ j v', jsonEncodeTree env v = .ok j ∧ JsonVal.unmarshalTop env j v.ty = .ok v' ∧ v'.ty = v.ty ∧
+      JsonVal.sameP v'.v v.v = true :=
+  unmarshal_own_type_inverts_jsonencode env v h hs hn
+
 /-! ## regex -/
 
 /-- **`regex` never panics** although it SLICES the subject by the index lists of the regexp
@@ -971,6 +1012,13 @@ def exLib : Lib :=
     fmtFloat := fun _ _ => "", textG := fun _ => "", jsonStr := id }
 def exWide : VerbSyn := { flags := [], width := some "18446744073709551617".toList, prec := none, idx := none, mode := 'd' }
 example : formatAppend exLib (exWide.verb 0 1) [intVal 1] = .err "unsupported width" := by decide
+-- json: the hypotheses hold of C15's nested sample value; a list comes back as a tuple of the same members
+example : JsonVal.rtHyps C15.env0 C15.sampleV C15.sampleV.ty = true ∧ JsonVal.setFree C15.sampleV.ty = true ∧
+    C15.sampleV.isNull = false := by decide +kernel
+example : JsonVal.docOK C15.env0 (.obj ["a", "b"] [.arr [.str "x", .null], .num "1.5"]) = true := by decide +kernel
+example : (match jsonDecodeTree C15.env0 (.arr [.str "a"]) with
+    | .ok v' => v'.ty.equals (.tuple [.string]) && JsonVal.sameP v'.v (.seq [.s "a"])
+    | _ => false) = true := by decide +kernel
 -- regex: the index-list law is satisfiable by a match with an unmatched group ("a(b)?" on "xa")
 example : IdxOK 2 1 [1, 2, -1, -1] := by
   refine ⟨rfl, ?_, ?_⟩
